@@ -520,7 +520,7 @@ def run(ck):
                 treps[typ].append(path)
     repfiles = sorted(p for v in reps.values() for p in v)
     ck.note("formats_with_a_prefix_sweep", len(reps))
-    maxlen = 192 if quick else 1100
+    maxlen = 288 if quick else 1100
     nprefix = 0
     for (n, fails) in vlib.pmap(run_prefix_shard, [(fexe, scratch, maxlen, repfiles[i::16]) for i in range(16)]):
         nprefix += n
